@@ -35,6 +35,9 @@ REQ_CLASSES = {
     "slow_ok": [["delay", 0.8]], "frag2_ok": [["frag2", 9, 0.3]],
     # answered at once; a few stray bytes follow 0.5 T later, while the (kept-alive) socket is idle (the caller pauses 0.7 T)
     "ok_latebad": [["nowjunk", 0.5]],
+    # answered at once; 0.5 T later the peer RESETS the idle connection (RST: the transport dies with an error, no EOF first; UDP: a late
+    # ICMP error); the caller pauses 0.7 T
+    "ok_latereset": [["nowerr", errno.ECONNRESET, 0.5]],
 }
 # classes whose script legitimately makes the library retransmit / reconnect
 RETRY_CLASSES = {"drop_ok", "exh", "garbage_ok", "closelate_ok", "close_ok", "late", "frag1", "reset_ok", "senderr"}
@@ -57,12 +60,13 @@ def scenario(transport, ka, T, R, actions):
         else:
             reg += 1
             by_reg[reg] = [([x[0], x[1] * T] if (isinstance(x, list) and x[0] in ("delay", "nowjunk")) else
-                            ([x[0], x[1], x[2] * T] if (isinstance(x, list) and x[0] == "frag2") else x)) for x in REQ_CLASSES[a]]
+                           ([x[0], x[1], x[2] * T] if (isinstance(x, list) and x[0] == "nowerr") else
+                            ([x[0], x[1], x[2] * T] if (isinstance(x, list) and x[0] == "frag2") else x))) for x in REQ_CLASSES[a]]
             reg_class[reg] = a
             if a == "senderr":
                 cur.append(["arm_send_fault", errno.EHOSTUNREACH])
             cur.append(["read", reg, 2])
-            if a == "ok_latebad":
+            if a in ("ok_latebad", "ok_latereset"):
                 cur.append(["sleep", 0.7 * T])
     reg += 1
     by_reg[reg] = ["now"]
@@ -164,13 +168,19 @@ def check_run(sc, run, part: Part):
         acts = sc["actions"]
         # ... and transparently: when nothing in the history can leave a stray answer behind (only answered requests, close(), loop changes
         # and - TCP - idle connection drops), the healthy request needs exactly one transmission
-        clean = {"ok", "slow_ok", "frag2_ok", "rej", "CLOSE", "NEWLOOP"} | ({"PEERDROP"} if tr == "tcp" else set())
+        clean = {"ok", "slow_ok", "frag2_ok", "rej", "CLOSE", "NEWLOOP", "ok_latebad", "ok_latereset"} | ({"PEERDROP"} if tr == "tcp" else set())
         ntx = len([e for e in engine.events_of_call(run, healthy[0]["id"]) if e[1] == "tx"])
         if all(a in clean for a in acts):
             part.count("transparent_reconnect_checked")
             if ntx != 1:
                 out.append((f"C10/{tr}/reconnect-not-transparent",
                             f"{ctx}: the request against the healthy peer needed {ntx} transmissions (ended at +{round(healthy[0]['t1'] - healthy[0]['t0'], 6)})"))
+            elif healthy[0]["t1"] - healthy[0]["t0"] >= sc["T"] - 1e-9:
+                # (a request written into a transport that is already dead never shows up as a transmission: it shows as a timeout spent
+                #  before the one transmission that is answered at once)
+                out.append((f"C10/{tr}/reconnect-not-transparent",
+                            f"{ctx}: the request against the healthy peer (answers at once) ended only at +{round(healthy[0]['t1'] - healthy[0]['t0'], 6)}: "
+                            f"a whole timeout went by before the transmission that was answered"))
         if acts:
             last = acts[-1]
             part.count({"CLOSE": "reconnect_after_close", "PEERDROP": "reconnect_after_peerdrop",
